@@ -49,6 +49,23 @@ pub fn method_name(m: u8) -> String {
     v.join("+")
 }
 
+/// Selector table of the libFuzzer target (`/verif/fuzz/fuzz_targets/codec.rs`): input byte 0 indexes it
+/// (mod its length). The named codecs come first and several times, so that an unguided byte lands on
+/// them more often than on a two-flag combination the compressor refuses.
+pub fn fuzz_selectors() -> Vec<u8> {
+    let mut v = vec![];
+    for _ in 0..4 {
+        v.extend_from_slice(&[flags::ZLIB, flags::BZIP2, flags::LZMA, flags::SPARSE, flags::PKWARE]);
+    }
+    v.extend_from_slice(&[flags::ADPCM_MONO, flags::ADPCM_STEREO, flags::ADPCM_MONO, flags::ADPCM_STEREO]);
+    for i in 0..8 {
+        for j in i + 1..8 {
+            v.push((1u8 << i) | (1u8 << j));
+        }
+    }
+    v
+}
+
 /// one codec stage (as opposed to a multi-flag selector)
 pub fn is_single(m: u8) -> bool {
     m == flags::LZMA || m.count_ones() <= 1
